@@ -362,6 +362,29 @@ pub fn run(tier: Tier) {
         }
     }
     let n_c = cases.len() - n_a - n_b;
+    // (d) the same rule supplied by two different owners under the same trusted set
+    for (tn, rules) in &temps {
+        for trusted in [vec![0usize, 1, A], vec![0, 1, 2, A], vec![1, 2], vec![0, A]] {
+            for o1 in &trusted {
+                for o2 in &trusted {
+                    if o1 >= o2 {
+                        continue;
+                    }
+                    for base in bases.iter().take(tier.pick(4, 9)) {
+                        let mut rs = vec![];
+                        for r in rules {
+                            rs.push(WRule { owner: *o1, trusted: trusted.clone(), rule: r.clone() });
+                        }
+                        for r in rules {
+                            rs.push(WRule { owner: *o2, trusted: trusted.clone(), rule: r.clone() });
+                        }
+                        cases.push((format!("same-rule-two-owners/{tn}"), WorldCase { facts: base.clone(), rules: rs }));
+                    }
+                }
+            }
+        }
+    }
+    let n_d = cases.len() - n_a - n_b - n_c;
 
     let evals = AtomicUsize::new(0);
     let perm_runs = AtomicUsize::new(0);
@@ -493,7 +516,7 @@ pub fn run(tier: Tier) {
         "states": ev,
         "transitions": ev + perm_runs.load(Ordering::Relaxed) + order_runs.load(Ordering::Relaxed) + query_cmp.load(Ordering::Relaxed),
         "traces_validated_against_impl": ev,
-        "worlds": {"template x owner x trusted x fact base": n_a, "template pairs": n_b, "provenance matrix": n_c},
+        "worlds": {"template x owner x trusted x fact base": n_a, "template pairs": n_b, "provenance matrix": n_c, "same rule from two owners": n_d},
         "worlds_where_rules_derive_something": nonempty.load(Ordering::Relaxed),
         "worlds_skipped_reference_expression_error": ref_errors.load(Ordering::Relaxed),
         "insertion_order_permutation_runs": perm_runs.load(Ordering::Relaxed),
